@@ -254,7 +254,8 @@ def resume(tid, storage, crash_at, torn, second_crash, n0, n1, n2, *vals):  # no
             if fs.name in stored and storage == "file_array":
                 if again > ncalls[fs.name] - stored[fs.name]:
                     return fail("an element that was completely stored before the interruption was recomputed")
-            if log.count(fs.name) > ncalls[fs.name] + crashes:
+            is_map = bool(fs.mapspec and tmpl.parse_spec(fs.mapspec)[0])
+            if (storage == "file_array" or not is_map) and log.count(fs.name) > ncalls[fs.name] + crashes:
                 return fail("more recomputation than the interrupted invocations can explain")
         return True
     finally:
@@ -295,7 +296,8 @@ def user_failure(tid, storage, fname, k, n0, n1, n2, *vals):
             again = log.count(fs.name) - before[fs.name]
             if fs.name in stored and storage == "file_array" and again > ncalls[fs.name] - stored[fs.name]:
                 return fail("an element that was completely stored before the failure was recomputed")
-            if log.count(fs.name) > ncalls[fs.name] + 1:
+            is_map = bool(fs.mapspec and tmpl.parse_spec(fs.mapspec)[0])
+            if (storage == "file_array" or not is_map) and log.count(fs.name) > ncalls[fs.name] + 1:
                 return fail("more recomputation than the failed invocation can explain")
         return True
     finally:
@@ -340,7 +342,7 @@ def obligations(tier):
     cases = [("T1", "file_array"), ("T5", "file_array"), ("T5", "dict"), ("T8", "file_array"), ("T13", "file_array"), ("T7", "file_array")]
     if thorough:
         cases += [("T4", "file_array"), ("T4", "dict"), ("T12", "file_array"), ("T6", "file_array"), ("T16", "file_array"), ("T1", "dict")]
-    chunk = 12
+    chunk = 6
     for tid, st in cases:
         t = T[tid]
         nmax, _ = count_events(tid, st, (2, 2, 2))
@@ -379,11 +381,11 @@ def obligations(tier):
             Ob(
                 f"userfail_{tid}_{fname}_{st}",
                 [("k", I)] + MAP_PARAMS,
-                ["1 <= k <= 5"] + tmpl.size_pre(t, 2),
+                ["1 <= k <= 5", " and ".join(f"0 <= v{i} <= 1" for i in range(7)) + " and " + " and ".join(f"v{i} == 0" for i in range(7, 12))] + tmpl.size_pre(t, 2),
                 f"H.user_failure({tid!r}, {st!r}, {fname!r}, k, {MAP_ARGS})",
                 timeout=400,
                 flags=("tokpickle",),
-                bounds=f"{tid}: {fname} raises in its k-th call (1..5), then re-run with cleanup=False; storage {st}",
+                bounds=f"{tid}: {fname} raises in its k-th call (1..5), then re-run with cleanup=False; storage {st}; input values 0..1 (the error annotation formats them)",
             )
         )
     return obs
